@@ -105,7 +105,8 @@ func init() {
 }
 
 var limV4 = []string{"1.2.3.4", "10.0.0.1", "192.168.5.7", "192.168.5.200", "192.168.6.1", "127.0.0.1", "8.8.8.8", "172.16.31.254"}
-var limOther = []string{"2001:db8::1", "::1", "fe80::1", "1.2.3.4,5.6.7.8", "garbage", "001.2.3.4"}
+var limOther = []string{"2001:db8::1", "::1", "fe80::1", "1.2.3.4,5.6.7.8", "garbage", "001.2.3.4",
+	"::ffff:192.168.5.7", "::ffff:c0a8:0507", "::FFFF:10.1.2.3", "::ffff:8.8.8.8", "::ffff:808:808", "::ffff:1.2.3", "::ffff:1.2.3.4"}
 var limBlocks = []string{"192.168.5.0/24", "10.0.0.0/8", "127.0.0.3/24", "0.0.0.0/0", "8.8.8.8/32", "172.16.0.0/12", "192.168.5.128/25"}
 
 func genC20(c *Ctx) {
